@@ -29,6 +29,7 @@ func c06Flags(a map[string]string) string {
 }
 
 type absSpec struct {
+	chain  string // "" = both chains
 	prop   string
 	roles  []string
 	flags  func(a map[string]string) string
@@ -82,9 +83,22 @@ func registerAbsSlices() {
 		spec := spec
 		slices["abs"+name] = func(r *rng, n int, emit func(op, res string)) {
 			all := sweepScenarios(spec.roles)
+			if spec.chain != "" {
+				kept := all[:0]
+				for _, sc := range all {
+					if scnChain(sc.steps) == spec.chain {
+						kept = append(kept, sc)
+					}
+				}
+				all = kept
+			}
 			for i := 0; i < n; i++ {
 				role := spec.roles[r.intn(len(spec.roles))]
 				sc := scn{role: role, steps: genScenario(r, role, r.intn(3) > 0)}
+				if spec.chain != "" && scnChain(sc.steps) != spec.chain {
+					i--
+					continue
+				}
 				if r.intn(3) == 0 {
 					c := defaultCfg()
 					c.IdempotentRepay = r.bool()
@@ -139,5 +153,15 @@ func ngFlags(a map[string]string) string {
 
 func init() {
 	absSpecs["Ng"] = absSpec{prop: "Ng", roles: []string{"outSender", "inSender", "outReceiver", "inReceiver"}, flags: ngFlags, params: func([]string) string { return "" }}
+	registerAbsSlices()
+}
+
+// anFlags: anchorRec keySent paidNoAnchor anchorMoved
+func anFlags(a map[string]string) string {
+	return bit(a["anchor"]) + bit(a["offersent"]) + bit(a["paidnoanchor"]) + bit(a["anchormoved"])
+}
+
+func init() {
+	absSpecs["An"] = absSpec{chain: "lbtc", prop: "An", roles: []string{"outSender", "inReceiver"}, flags: anFlags, params: func([]string) string { return "" }}
 	registerAbsSlices()
 }
